@@ -356,6 +356,22 @@ class Builder:
         self.out(target, lines)
         return "promoted_param"
 
+    def s_nested_call_position(self, target):
+        """the only float-typed call of an un-annotated helper sits inside another expression (a conversion, an operator, another call, a list,
+        a comparison): the helper still needs its float variant"""
+        h, a, g = self.name("h"), self.name("a"), self.name("n")
+        body = self.draw(st.sampled_from([f"    return {a} * 2", f"    return {a} + 1", f"    return {a}"]))
+        self.pre += [f"def {h}({a}):", body]
+        x = self.name()
+        c = f"{h}({g})"
+        form = self.draw(st.sampled_from([f"str({c})", f"int({c} * 4)", f"float({c})", f"{c} + 1", f"abs({c})", f"max({c}, 1)", f"{h}({c})", f"[{c}][0]", f"{c} > 3", f"-{c}",
+                                          f"1 if {c} > 3 else 0", f"len(str({c}))", f"{c} * {c}", f"str({c}) + '!'"]))
+        lines = [f"{g} = {self.val('float')}"]
+        # (a second call site with an int argument would be the open multi_signature class)
+        lines += [f"{x} = {form}", f"mon.write({x})"]
+        self.out(target, lines)
+        return "nested_call_position"
+
     def s_retype(self, target):
         x = self.name()
         form = self.draw(st.sampled_from(["assign", "aug", "swap"]))
@@ -399,7 +415,7 @@ class Builder:
 
 
 SAFE = ["if_else_join", "ifexp_join", "float_first", "branch_hoist", "elif_hoist", "for_hoist", "while_hoist", "return_join", "annotated_param",
-        "list_join", "string_promotion", "tuple", "cross_pass", "mixed_arith", "device_getter", "nested_hoist", "same_local_two_helpers", "shadow", "promoted_param"]
+        "list_join", "string_promotion", "tuple", "cross_pass", "mixed_arith", "device_getter", "nested_hoist", "same_local_two_helpers", "shadow", "promoted_param", "nested_call_position"]
 OPEN = ["retype", "multi_signature", "unannotated_param", "branch_in_loop", "float_minmaxabs", "main_loop_first_assign"]
 
 
